@@ -23,9 +23,11 @@ def _fault_codes(code): return (code,) if isinstance(code, str) else tuple(code)
 _CTX = None
 
 def _k1_job(job):
-    N, prefixes = job
+    N, prefixes = job[:2]; frame = job[2] if len(job) > 2 else None
     ctx = _CTX; part = Part()
-    M, entry, b, L, toks, LM = LC.tokenize_machine(ctx, N)
+    if frame is None: M, entry, b0, L, toks, LM = LC.tokenize_machine(ctx, N)
+    else: M, entry, b0, L, toks, LM = LC.tokenize_machine(ctx, N, bytes_=[x if x is not None else z3.BitVec('f%d' % i, 8) for i, x in enumerate(frame)])
+    b = [z3.BitVecVal(x, 8) if isinstance(x, int) else x for x in b0]       # the assertions below are over terms
     COMMENT, NEWLINE = LM.tok_id['Comment'], LM.tok_id['Newline']
     STRS = [LM.tok_id[x] for x in ('SingleByteString', 'DoubleByteString') if x in LM.tok_id]
     valid = M.base_constraints[0]
@@ -186,6 +188,32 @@ def k1(ctx, kr):
     kr.assumptions = ['source is valid UTF-8 (it is a Rust &str)', 'reference for line/column: number of \\n before the offset / bytes since the last \\n (the convention of map_label and codespan)']
     kr.outside = ['sources longer than %d bytes; columns in characters vs bytes (K5)' % NMAX]
 
+
+@kernel('K9 lexer.positions_around_multi_line_lexemes')
+def k9(ctx, kr):
+    """K1's assertions on framed documents: a comment / string / line comment whose body is k arbitrary bytes (line breaks, carriage returns, multi-byte
+    characters, anything), followed by an identifier on the same line: the lexemes K1's 4..6 byte documents are too short to contain."""
+    global _CTX
+    _CTX = ctx
+    KMAX = 4 if ctx.tier == 'quick' else 6
+    FRAMES = [('block comment', b'(*', b'*)x'), ('string', b"'", b"'x"), ('wide string', b'"', b'"x'), ('line comment', b'//', b'\nx'), ('block comment after a token', b'a(*', b'*) x')]
+    kr.bounds = 'documents <open> body <close> x with body = every valid UTF-8 sequence of 1..%d bytes, for %s' % (KMAX, [f[0] for f in FRAMES])
+    P = ctx.program()
+    jobs = []
+    for name, pre, suf in FRAMES:
+        for k in range(1, KMAX + 1):
+            frame = list(pre) + [None] * k + list(suf)
+            jobs.append((len(frame), None, frame))
+    jobs.sort(key=lambda j: -j[0])
+    for part in par_map(_k1_job, jobs):
+        for f in part.findings: f['role'] = f['role'].replace('C05/K1/', 'C05/K9/')
+        merge_part(kr, part)
+    kr.functions = fn_paths(P, getattr(kr, '_enc', set())) + ['ironplc-parser::<TokenType as Logos>::lex (generated state machine, lifted)']
+    kr.stubs = LC.STUB_NOTES
+    kr.exhaustive = True
+    kr.assumptions = ['source is valid UTF-8 (it is a Rust &str)', 'reference for line/column: number of \\n before the offset / bytes since the last \\n']
+    kr.outside = ['bodies longer than %d bytes' % KMAX]
+
 def _find_span(M, d):
     # Diagnostic { code, description, primary: Label { location: SourceSpan{start,end,file_id}, ...}, ...}
     stack = [d]
@@ -198,7 +226,6 @@ def _find_span(M, d):
     return None
 def lastseg_name(n): return re.sub(r'<.*', '', n).split('::')[-1]
 
-KERNELS = [k1]
 
 
 # ---------------------------------------------------------------------------------------------- K2 preprocessor keeps offsets
@@ -721,4 +748,4 @@ def k8(ctx, kr):
     kr.exhaustive = True
     kr.outside = ['diagnostics of other constructs; secondary labels (K6, K7)']
 
-KERNELS = [k1, k2, k3, k5, k6, k7, k8]
+KERNELS = [k1, k2, k3, k5, k6, k7, k8, k9]
